@@ -35,3 +35,8 @@ impl<const N: usize> ArrEq for [u8; N] {
     #[verifier::external_body]
     fn arr_eq(&self, other: &Self) -> (r: bool) { self == other }
 }
+
+// Option / Result adapters (A-STD)
+pub assume_specification<T, P: FnOnce(&T) -> bool>[ Option::<T>::filter ](o: Option<T>, p: P) -> (r: Option<T>)
+    ensures match o { None => r is None,
+                      Some(v) => (r is None || r == Some(v)) && (r is Some ==> call_ensures(p, (&v,), true)) && (r is None ==> call_ensures(p, (&v,), false)) };
